@@ -434,7 +434,7 @@ def check_property(prop, tier, seed, replay=None):
                                f"{len(r['modeldiff'])} lines differ from the model; first: " +
                                " || ".join(f"{d['op']}  model={d['model']}" for d in first)))
         # failing-input search: when a tie or proof broke and nothing concrete was found yet, look wider
-        have_viol = any(r["violations"] for r in stream_results)
+        have_viol = any(match_known(pid, v, known) is None for r in stream_results for v in r["violations"])
         if broken and not have_viol and tier == "quick" and not replay:
             notes.append("tie or proof broken: running the failing-input search (thorough-size streams, spec oracle)")
             stream_results += run_all("thorough", seeds_override=[seed + 1000])
